@@ -13,6 +13,7 @@ import (
 
 	"verifharness/oracle"
 	"verifharness/trace"
+	"verifharness/xproj"
 )
 
 type keyEvent struct {
@@ -37,6 +38,19 @@ type sigEvent struct {
 	Msg     []int   `json:"msg"`
 	Sig     []int   `json:"sig"`
 	Plan    int     `json:"plan"`
+}
+
+type sigHeadEvent struct {
+	Ev     string `json:"ev"`
+	Hf     int    `json:"hf"`
+	H      int    `json:"h"`
+	Seed   []int  `json:"seed"`
+	Root   []int  `json:"root"`
+	PkSeed []int  `json:"pkseed"`
+	Idx    int    `json:"idx"`
+	Msg    []int  `json:"msg"`
+	Head   []int  `json:"head"`
+	Plan   int    `json:"plan"`
 }
 
 type sameEvent struct {
@@ -234,6 +248,9 @@ func c06(r *rand.Rand, tier string, vseed int, tr *trace.Buf, tablePath string, 
 			xmss.VerifHashHook = hook
 			msg := make([]byte, msgLens[msgNo%len(msgLens)])
 			msgNo++
+			if pi == 0 && i == idxs[0] { // the empty message, always
+				msg = []byte{}
+			}
 			if i == longAt {
 				msg = make([]byte, []int{4096, 4097, 10000, 5000}[(pi+vseed)%4])
 				if pi == 0 { // one message beyond 64 KiB (a streaming path would start at some such size)
@@ -278,6 +295,69 @@ func c06(r *rand.Rand, tier string, vseed int, tr *trace.Buf, tablePath string, 
 		}
 		trace.WriteJSONCompact(tablePath+".p"+strconv.Itoa(pi), tab)
 		totalRows += tab.Rows
+	}
+	// trees too tall to be held (positional: leaf seam + node seam, nothing of the tree is hashed): the part of a
+	// signature that does not depend on the tree - index, R, WOTS signature - at indices whose upper bytes are in
+	// use (2^16, 2^24): the index words of the hash addresses, of the PRF input and of the H_msg key
+	{
+		type tp struct{ h, at int }
+		tplans := []tp{{18, 1<<16 - 1}, {26, 1<<24 - 1}}
+		if tier == "thorough" {
+			tplans = append(tplans, tp{30, 1<<24 + 1<<16 - 1})
+		}
+		for ti, tpl := range tplans {
+			pi := len(plans) + ti
+			tab = oracle.NewTable()
+			tag := uint64(r.Int63())
+			xmss.VerifHashHook = nil
+			xmss.VerifLeafHook = func(hf xmss.HashFunction, leaf []uint8, idx uint32) bool {
+				copy(leaf, xproj.PosNode(tag, 0, idx))
+				return true
+			}
+			xmss.VerifNodeHook = func(hf xmss.HashFunction, out []uint8, addr *[8]uint32) bool {
+				if addr[3] != 2 {
+					return false
+				}
+				copy(out, xproj.PosNode(tag, int(addr[5])+1, addr[6]))
+				return true
+			}
+			var seed [48]uint8
+			r.Read(seed[:])
+			hf := (vseed + ti) % 3
+			x := xmss.NewXMSSFromSeed(seed, uint8(tpl.h), xmss.HashFunction(hf), common.SHA256_2X)
+			pk := x.GetPK()
+			x.SetIndex(uint32(tpl.at))
+			for q := 0; q < 2; q++ { // at = ..ffff and the index after the carry
+				idx := int(x.GetIndex())
+				msg := make([]byte, 1+r.Intn(40))
+				r.Read(msg)
+				cur = nil
+				xmss.VerifHashHook = func(hf xmss.HashFunction, typeValue uint32, buf, out []uint8) {
+					cur = append(cur, hrow{alg: int(hf), buf: append([]byte{}, buf...), out: append([]byte{}, out[:32]...)})
+				}
+				sig, err := x.Sign(msg)
+				xmss.VerifHashHook = nil
+				if err != nil {
+					continue
+				}
+				for _, rw := range cur { // audited rows of this signature for the specification's table
+					want, _ := oracle.Hash(rw.alg, rw.buf, 32)
+					audited++
+					if !bytes.Equal(want, rw.out) {
+						failed++
+						continue
+					}
+					tab.Add(rw.alg, rw.buf, rw.out)
+				}
+				tr.Emit(sigHeadEvent{Ev: "sighead", Hf: hf, H: tpl.h, Seed: ints(seed[:]), Root: ints(pk[3:35]), PkSeed: ints(pk[35:67]),
+					Idx: idx, Msg: ints(msg), Head: ints(sig[:4+32+67*32]), Plan: pi})
+			}
+			exp, _ := oracle.Hash(oracle.SHAKE256_96, seed[:], 96)
+			tab.Add(oracle.SHAKE256_96, seed[:], exp)
+			trace.WriteJSONCompact(tablePath+".p"+strconv.Itoa(pi), tab)
+			totalRows += tab.Rows
+			xmss.VerifNodeHook = nil
+		}
 	}
 	xmss.VerifHashHook = nil
 	xmss.VerifLeafHook = nil
